@@ -47,6 +47,12 @@ SCENARIOS = {
                             behaviour={1: ('close',)}, refuse=3, callbacks=2, horizon=40),
     'close_poller': dict(callers=[[('comm', 1), ('sleep', 4), ('comm', 2), ('sleep', 4), ('comm', 3)]],
                          behaviour={1: ('close',)}, refuse=2, callbacks=2, poller=True, poll_until=12, horizon=40),
+    'flapping': dict(callers=[[('comm', 1), ('sleep', 1), ('comm', 2), ('sleep', 2.5), ('comm', 3), ('sleep', 0.5), ('comm', 4),
+                               ('sleep', 0.5), ('comm', 5), ('sleep', 3), ('comm', 6)]],
+                     behaviour={1: ('close',), 3: ('close',)}, callbacks=1, horizon=40),
+    'flapping_two': dict(callers=[[('comm', 1), ('sleep', 3.2), ('comm', 2), ('sleep', 1), ('comm', 3), ('sleep', 3), ('comm', 4)],
+                                  [('sleep', 3.4), ('comm', 5), ('sleep', 1), ('comm', 6), ('sleep', 0.4), ('comm', 7)]],
+                         behaviour={1: ('close',), 5: ('close',)}, callbacks=2, horizon=40),
     'drop_inside': dict(callers=[[M((1, 0.5), (2, 0.5), (3, 0))], [('comm', 4), ('sleep', 4), ('comm', 5)]],
                         drop_at=0.7, refuse=1, callbacks=2, horizon=30),
     'wait_before': dict(callers=[[('comm', 1), ('comm', 2)], [('comm', 3)]], wait_before=0.3, behaviour={2: ('late', 2.2)}),
